@@ -21,11 +21,11 @@ def run(c):
     slow = lambda s: s["m"]["disp"] == "slow" or s["m"]["why"] in ("alertin", "alerteg")
     _dpadv.pipeline(
         c, "C09",
-        explores=[("adv.quick", False), ("bfd.quick", False), ("alert.quick", False), ("epic.quick", False),
-                  ("adv.quick", True), ("bfd.quick", True)],
-        budget=6000 if th else 500,
+        explores=[("adv.quick", False), ("faults", False), ("bfd.quick", False), ("alert.quick", False),
+                  ("epic.quick", False), ("adv.quick", True), ("faults", True), ("bfd.quick", True)],
+        budget=6400 if th else 320,
         keep=slow,
-        rand={"rand": 4000 if th else 300, "maxhops": 4, "kinds": ["scion", "epic"]},
+        rand={"rand": 4000 if th else 200, "maxhops": 4, "kinds": ["scion", "epic"]},
         flags=["-c09"],
         nontrivial=lambda e: e["s"]["ran"])
     c.cov["rule"] = ("one event = one offending packet through fast and slow path of the real router; non-trivial = "
